@@ -21,6 +21,9 @@ type runCfg struct {
 	MaxDev int
 	Name   string
 	Seed   string // see raftkvs.Build
+	// Delays > 0: after the breadth-first phase, a delay-bounded phase (round-robin scheduler + at
+	// most Delays delays, see specstep/delay.go) explores long executions from the same start
+	Delays int
 }
 
 type replay struct {
@@ -77,6 +80,20 @@ func shape(obs string) string {
 	return strings.Join(parts, ">")
 }
 
+func dbStats(d *ss.BFSResult) any {
+	if d == nil {
+		return nil
+	}
+	return map[string]any{"nodes": d.States, "distinct_states": d.DistinctStates, "steps": d.Transitions, "depth": d.Depth, "exhaustive_within_bounds": d.Exhaustive, "cap": d.Cap, "wall_s": d.WallS}
+}
+
+func bfsShare(share time.Duration, delays int) time.Duration {
+	if delays > 0 {
+		return share / 2
+	}
+	return share
+}
+
 func TestCheck(t *testing.T) {
 	hres.Main(t, func(env hres.Env) *hres.Result {
 		res := &hres.Result{Property: "C09", Level: "model_checking"}
@@ -104,23 +121,23 @@ func TestCheck(t *testing.T) {
 		cfgs := []runCfg{
 			// one server (leader by construction): isolates client retries / duplicate responses
 			{raftkvs.Config{NumServers: 1, NumClients: 2, MaxTerm: 3, MaxCommitIndex: 6, FIFO: true, Budgeted: true,
-				Requests: [][]raftkvs.Req{{put("k", "v1"), get("k")}, {put("k", "v2")}}}, 1, "1srv-2cli-retry", ""},
+				Requests: [][]raftkvs.Req{{put("k", "v1"), get("k")}, {put("k", "v2")}}}, 1, "1srv-2cli-retry", "", 0},
 			{raftkvs.Config{NumServers: 2, NumClients: 2, MaxTerm: 3, MaxCommitIndex: 4, FIFO: true, Budgeted: true,
-				Requests: [][]raftkvs.Req{{put("k", "v1")}, {get("k")}}}, 0, "2srv-2cli", ""},
+				Requests: [][]raftkvs.Req{{put("k", "v1")}, {get("k")}}}, 0, "2srv-2cli", "", 0},
 			// leader change after an acknowledged put that one follower lacks; another client reads afterwards
 			{raftkvs.Config{NumServers: 3, NumClients: 2, MaxTerm: 4, MaxCommitIndex: 5, FIFO: true, Budgeted: true, ExploreFail: true, MaxNodeFail: 1,
-				Requests: [][]raftkvs.Req{{put("k", "v1"), put("k", "v2")}, {get("k")}}}, 0, "3srv-acked-put-then-leader-crash", "commit2-lagging-crash"},
+				Requests: [][]raftkvs.Req{{put("k", "v1"), put("k", "v2")}, {get("k")}}}, 0, "3srv-acked-put-then-leader-crash", "commit2-lagging-crash", 3},
 		}
 		if env.Thorough() {
 			cfgs = append(cfgs,
 				runCfg{raftkvs.Config{NumServers: 3, NumClients: 2, MaxTerm: 4, MaxCommitIndex: 5, FIFO: true, Budgeted: true, DevKinds: []string{"election"},
-					Requests: [][]raftkvs.Req{{put("k", "v1"), put("k", "v2")}, {get("k")}}}, 1, "3srv-acked-put-then-spurious-election", "commit2-lagging"},
+					Requests: [][]raftkvs.Req{{put("k", "v1"), put("k", "v2")}, {get("k")}}}, 1, "3srv-acked-put-then-spurious-election", "commit2-lagging", 3},
 				runCfg{raftkvs.Config{NumServers: 1, NumClients: 2, MaxTerm: 3, MaxCommitIndex: 8, FIFO: true, Budgeted: true,
-					Requests: [][]raftkvs.Req{{put("k", "v1"), get("k")}, {put("k", "v2"), get("k")}}}, 2, "1srv-2cli-2x2", ""},
+					Requests: [][]raftkvs.Req{{put("k", "v1"), get("k")}, {put("k", "v2"), get("k")}}}, 2, "1srv-2cli-2x2", "", 0},
 				runCfg{raftkvs.Config{NumServers: 3, NumClients: 2, MaxTerm: 3, MaxCommitIndex: 4, FIFO: true, Budgeted: true, ExploreFail: true, MaxNodeFail: 1,
-					Requests: [][]raftkvs.Req{{put("k", "v1")}, {get("k")}}}, 1, "3srv-2cli-crash", ""},
+					Requests: [][]raftkvs.Req{{put("k", "v1")}, {get("k")}}}, 1, "3srv-2cli-crash", "", 3},
 				runCfg{raftkvs.Config{NumServers: 2, NumClients: 2, MaxTerm: 4, MaxCommitIndex: 5, FIFO: true, Budgeted: true,
-					Requests: [][]raftkvs.Req{{put("k", "v1"), get("j")}, {put("j", "v2"), get("k")}}}, 1, "2srv-2keys", ""})
+					Requests: [][]raftkvs.Req{{put("k", "v1"), get("j")}, {put("j", "v2"), get("k")}}}, 1, "2srv-2keys", "", 2})
 		}
 		if j := os.Getenv("VERIF_C09_CFGS"); j != "" {
 			cfgs = nil
@@ -178,10 +195,35 @@ func TestCheck(t *testing.T) {
 				exhaustive = false
 				continue
 			}
-			r := sys.BFS(ss.BFSOptions{Workers: env.Workers, Deadline: time.Now().Add(share), Constraint: cfg.Constraint, MaxDev: cfg.MaxDev,
+			r := sys.BFS(ss.BFSOptions{Workers: env.Workers, Deadline: time.Now().Add(bfsShare(share, cfg.Delays)), Constraint: cfg.Constraint, MaxDev: cfg.MaxDev,
 				Invariants: []func(*ss.State) (string, string){histInv}, MaxViol: 5})
 			if r.MemoMismatch > 0 {
 				t.Fatalf("transition memo disagrees with the real code: %s", r.MemoFirstMismatch)
+			}
+			var dres *ss.BFSResult
+			if cfg.Delays > 0 {
+				dres = &ss.BFSResult{Exhaustive: true}
+				orders := sys.Orders()
+				for oi, ord := range orders {
+					d := sys.DelayBounded(ss.DelayOptions{MaxDelays: cfg.Delays, MaxDev: cfg.MaxDev, MaxDepth: 400, Order: ord, Workers: env.Workers,
+						Deadline: time.Now().Add(share / 2 / time.Duration(len(orders)-oi)),
+						Constraint: cfg.Constraint, Invariants: []func(*ss.State) (string, string){histInv}, MaxViol: 5})
+					if d.MemoMismatch > 0 {
+						t.Fatalf("transition memo disagrees with the real code: %s", d.MemoFirstMismatch)
+					}
+					dres.States += d.States
+					dres.DistinctStates += d.DistinctStates
+					dres.Transitions += d.Transitions
+					dres.Depth = max(dres.Depth, d.Depth)
+					dres.Exhaustive = dres.Exhaustive && d.Exhaustive
+					dres.WallS += d.WallS
+					if d.Cap != "" {
+						dres.Cap = d.Cap
+					}
+					dres.Violations = append(dres.Violations, d.Violations...)
+				}
+				r.Violations = append(r.Violations, dres.Violations...)
+				trans += dres.Transitions
 			}
 			states += r.States
 			trans += r.Transitions
@@ -211,7 +253,7 @@ func TestCheck(t *testing.T) {
 			histMu.Unlock()
 			per = append(per, map[string]any{"name": cfg.Name, "config": cfg, "states": r.States, "transitions": r.Transitions, "depth": r.Depth, "states_per_deviation_round": r.DevRounds,
 				"distinct_histories_checked_so_far": nh, "leaf_paths_replayed_live": nConf, "exhaustive": r.Exhaustive, "cap": r.Cap, "wall_s": r.WallS,
-				"memo_hits": r.MemoHits, "memo_misses_executed_on_real_code": r.MemoMisses, "memo_hits_rechecked_on_real_code": r.MemoChecks})
+				"delay_bounded": dbStats(dres), "memo_hits": r.MemoHits, "memo_misses_executed_on_real_code": r.MemoMisses, "memo_hits_rechecked_on_real_code": r.MemoChecks})
 			for _, v := range r.Violations {
 				if !seen[v.Key] {
 					seen[v.Key] = true
